@@ -132,6 +132,31 @@ class Procs(Part):
         return Outcome(viol, labels, nt)
 
 
+class ImportErrors(Part):
+    """sequential runs (real discovery) of worlds that also contain modules which cannot be imported: import problems
+    are errors of the run, but they must not postpone the stop after the first failing test"""
+    name = 'importerr'
+    examples = {'quick': 96, 'thorough': 1500}
+
+    def strategy(self, tier):
+        @st.composite
+        def cs(draw):
+            case = draw(cases())
+            spec = case['spec']
+            for k in range(draw(st.integers(1, 2))):
+                spec['modules'].append({'name': 'x%d' % k, 'fail': draw(st.sampled_from(['ImportError', 'ValueError',
+                                                                                            'SyntaxError'])),
+                                        'tree': {'t': 's', 'ch': []}})
+            return case
+        return cs()
+
+    def execute(self, case):
+        spec = common.with_prefix(case['spec'])
+        run = drive.run_inproc(spec, common.args_of(case['opts']), disk=True)
+        viol, labels, nt = oracle(spec, case['opts'], run)
+        return Outcome(viol, labels + ['import-errors'], nt)
+
+
 class C16(Prop):
     id = 'C16'
     registered = True
@@ -145,10 +170,10 @@ class C16(Prop):
     level_note = ('A bad test is recognised by its outcome kind (validated table); its result is recorded at the latest '
                   'when it ends, so the oracle only forbids starts of *later* tests. Tear-down failures are not triggers.')
     rule = ('Hypothesis worlds (0..4 layers, tests 75% good, bad ones of 10 kinds, failing layer setUp / tearDown hooks), options -x always, --repeat 1..3, '
-            '--shuffle, --buffer; procs part adds NotImplementedError tear-downs and -j2. Non-trivial = a bad test '
+            '--shuffle, --buffer; procs part adds NotImplementedError tear-downs and -j2; importerr part adds 1..2 modules that fail to import (real discovery). Non-trivial = a bad test '
             'started and fewer tests started than were selected (something was really cut off).')
     assumptions = ('for resumed / -j runs only the per-process clause is checked',)
-    parts = (InProc(), Procs())
+    parts = (InProc(), Procs(), ImportErrors())
 
 
 PROP = C16()
